@@ -700,6 +700,16 @@ package nfa
 //@   props C15 C07
 //@   ensures (65 <= r && r <= 90 ==> result == r + 32) && (!(65 <= r && r <= 90) ==> result == r)
 
+// dot in ASCII-only mode: all of 00..7F, or exactly 00..7F without the newline; both arms lead to the same end state
+//@ func (*Compiler).compileASCIIAny
+//@   props C15
+//@   opt safety=off
+//@   opt frame=off
+//@   requires c != nil && c.builder != nil
+//@   modifies c.builder.states, c.builder.states[*], c.builder.byteClassSet.*
+//@   after call AddByteRange: includeNL && lastarg1 == 0 && lastarg2 == 0x7F && lastarg3 == endState
+//@   after call AddSparse: !includeNL && len(lastarg1) == 2 && lastarg1[0].Lo == 0 && lastarg1[0].Hi == 9 && lastarg1[1].Lo == 11 && lastarg1[1].Hi == 0x7F && lastarg1[0].Next == lastarg1[1].Next
+
 // ---- character-class repetition searcher (C19): closed form = runs of table bytes ----
 
 //@ spec func ccWin(s *CharClassSearcher, h []byte, i int) bool = 0 <= i && i + s.minMatch <= len(h) && (forall k :: i <= k && k < i + s.minMatch ==> s.membership[h[k]])
